@@ -618,7 +618,29 @@ def sub_links_enum(acc, shard, nshards, tier, seed):
                         acc.known_hits[v["signature"]] += 1
                     elif len(acc.violations) < 8 and all(v["signature"] != w["signature"] for w in acc.violations):
                         acc.violations.append(v)
+    # front-matter values of every YAML type for the keys the renderer itself reads (title with title_to_header, selected
+    # per document or globally; html_meta / substitutions in both spellings), before every kind of first heading
+    for key in ("title", "html_meta", "substitutions", "myst"):
+        for val in FM_VALUES:
+            for how in ("front", "config", "off"):
+                for body in ("", "# H\n", "## H2\n\ntext {{ a }}\n"):
+                    i += 1
+                    if i % nshards != shard:
+                        continue
+                    fm = f"{key}: {val}\n" + ("myst:\n  title_to_header: true\n" if how == "front" and key != "myst" else "")
+                    c2 = {"enable_extensions": ["substitution"], **({"title_to_header": True} if how == "config" else {})}
+                    case = {"gen": "fm_enum", "text": "---\n" + fm + "---\n" + body, "cfg": c2}
+                    for fe in (("docutils", "sphinx") if shard % 2 else ("docutils",)):
+                        for v in check_case(acc, case, fe):
+                            if kn.matches(v):
+                                acc.known_hits[v["signature"]] += 1
+                            elif len(acc.violations) < 8 and all(v["signature"] != w["signature"] for w in acc.violations):
+                                acc.violations.append(v)
     acc.exhaustive = True
+
+
+FM_VALUES = ["T", "123", "1.5", "true", "null", "~", "0", "[a, b]", "{a: b}", "2024-01-01", "2024-01-01 10:00:00", "''", "\"*em* `c`\"",
+             "|\n  multi\n  line", "!!binary aGk=", "- x", "[]", "{}", "{1: 2}", "[[a]]", "!!set {a, b}", ".inf", "0x10", "1e3"]
 
 
 def plan(tier):
